@@ -101,11 +101,14 @@ def showObs : Obs → String
   | .field => "field" | .fieldOther => "fieldOther" | .plain => "plain" | .scalar => "scalar"
   | .tupleFields => "tupleFields" | .tupleOther => "tupleOther" | .wrote => "wrote" | .raised => "raised" | .other => "other"
 
-/-- answer of the driver op `C19 dispatch` -/
+/-- answer of the driver op `C19 dispatch`: sizes, entries not handled as predicted, attributes missing, number of elementwise
+entries, number of those that keep the grid under both styles, then the predictions per entry -/
 def report (t : List Entry) (as : List Attr) : String :=
   let f := failures t
   let m := missing as
   let preds := t.map fun e => showObs (predict oldPolicy e) ++ "/" ++ showObs (predict newPolicy e)
-  s!"ok {t.length} {as.length} {if f.isEmpty then "-" else ",".intercalate f} {if m.isEmpty then "-" else ",".intercalate m} " ++ " ".intercalate preds
+  let ew := t.filter elementwise
+  let kept := ew.filter fun e => keepsGrid e.old && keepsGrid e.new
+  s!"ok {t.length} {as.length} {if f.isEmpty then "-" else ",".intercalate f} {if m.isEmpty then "-" else ",".intercalate m} {ew.length} {kept.length} " ++ " ".intercalate preds
 
 end HcipyVerif.FieldDispatch
